@@ -146,6 +146,8 @@ def h_reject(I):
     ft = FIXTester(schema=S)
     o = order_in_state(I, ft, 3 + I.choice("filled", 2))
     kind = I.choice("request", 2)
+    m0 = accepted(I, lambda: ft.fix_exec_report_msg(o, o.clord_id, FExecType.ORDER_STATUS, o.status))
+    I.check(m0 is not None, "helper refused a status report for a live order")
     req = accepted(I, (lambda: ft.fix_cxl_request(o)) if kind == 0 else (lambda: ft.fix_rep_request(o, 101.0, 12)))
     I.check(req is not None, "helper refused a request for a live order")
     st = STATUSES[I.choice("ord_status", len(STATUSES))]
@@ -167,6 +169,13 @@ def h_reject(I):
     except Exception as e:
         I.check(False, f"order object failed on a fabricated cancel reject: {type(e).__name__}")
     I.check(isinstance(o.status, FOrdStatus), "order status not an enum member after a fabricated reject")
+    # stable OrderID per order: the reject names the order by the OrderID of its execution reports,
+    # and the reports fabricated after the reject still carry it
+    I.check(m[FTag.OrderID] == m0[FTag.OrderID], "cancel reject names the order by a different OrderID than its execution reports")
+    m3 = accepted(I, lambda: ft.fix_exec_report_msg(o, o.clord_id, FExecType.ORDER_STATUS, o.status))
+    if m3 is not None:
+        I.check(m3[FTag.OrderID] == m0[FTag.OrderID], "OrderID of the order changed after a cancel reject")
+        I.goal("report-after-reject")
     return [str(o.status)]
 
 
@@ -335,7 +344,7 @@ def cells(tier):
                                  exec_type=EXEC_TYPES[ei].name, ord_status="every member (symbolic)", cum_qty="nan/0/3/10/12", leaves_qty="nan/0/7/10",
                                  last_qty="nan/3", order_qty="nan/12/8", price="nan/101.5", clord_id="current / original"),
                             goals=["refused-by-helper"], budget_s=2400))
-    out.append(Cell("cancel-reject", h_reject, dict(order="new / partially filled", request="cancel / replace", ord_status="every member (symbolic)"), goals=["fabricated"]))
+    out.append(Cell("cancel-reject", h_reject, dict(order="new / partially filled", request="cancel / replace", ord_status="every member (symbolic)"), goals=["fabricated", "report-after-reject"]))
     out.append(Cell("session-messages", h_session_msgs, dict(factories=["msg_logon", "msg_heartbeat", "msg_test_request", "msg_sequence_reset", "msg_resend_request"],
                                                             numbers="symbolic in [-2,1200]"), goals=["fabricated"]))
     for n in ((2,) if quick else (2, 3, 4)):
